@@ -911,6 +911,11 @@ impl ProxyServer {
                     )
                 }
                 Err(e) => {
+                    // keep the key out of the connection log
+                    let e = match e {
+                        Error::Hex(_, e) => Error::Hex("<withheld>".to_string(), e),
+                        e => e,
+                    };
                     http_connection_context.log(
                         LoggerLevel::Error,
                         format!("compute_signature failed with error: {}", e),
